@@ -737,6 +737,7 @@ def rule_functions(ctx, w):
         normal = [p for p in paths if p.outcome == "return"]
         fall = [p for p in paths if p.outcome == "fall"]
         ctx.count("paths", len(paths))
+        check_container_guards(ctx, w, name, paths, loc)
         if fall or not normal:
             ctx.undecided("R3", "%s:paths" % name, "a path falls off the end without returning a value "
                           "(conditions %s)" % ([(show(a), v) for a, v in fall[0].conds] if fall else "none return"), loc)
@@ -763,6 +764,56 @@ def rule_functions(ctx, w):
             check_delegate(ctx, w, name, fn, agg, toks, normal, params, loc)
         else:
             check_direct(ctx, w, name, fn, agg, toks, normal, params, loc)
+
+
+PANDAS_ONLY = ("index", "iloc", "loc", "values", "columns", "to_numpy", "to_frame", "name")
+DATA_PARAMS = ("y_true", "y_pred", "y_pred_benchmark", "y_train", "horizon_weight")
+
+
+def _pandas_proved(conds, prm):
+    """Do the conditions taken so far entail that parameter ``prm`` is a pandas object?"""
+    def positive(atom):
+        if atom[0] == "and":
+            return any(positive(x) for x in atom[1])
+        if atom[0] == "call" and atom[1] == F("builtins.isinstance") and len(atom[2]) == 2 and atom[2][0] == P(prm):
+            tys = atom[2][1][1] if atom[2][1][0] == "tuple" else (atom[2][1],)
+            return bool(tys) and all(t[0] == "f" and t[1].startswith("pandas.") for t in tys)
+        if atom[0] == "call" and atom[1] == F("builtins.hasattr") and len(atom[2]) == 2 and atom[2][0] == P(prm):
+            return atom[2][1][0] == "k" and atom[2][1][1] in PANDAS_ONLY
+        return False
+    def negative(atom):  # atom is false => prm is pandas
+        if atom[0] == "or":
+            return any(negative(x) for x in atom[1])
+        return atom[0] == "not" and positive(atom[1])
+    return any((v is True and positive(a)) or (v is False and negative(a)) for a, v in conds)
+
+
+def check_container_guards(ctx, w, name, paths, loc):
+    """R3: the data parameters are documented as pandas objects *or* numpy arrays, so every pandas-only attribute of
+    a raw parameter (``y_train.index`` ...) must be evaluated only where the path conditions already entail
+    ``isinstance(<that parameter>, pandas type)`` -- otherwise a mixed call (one pandas, one ndarray) raises instead of
+    returning the metric."""
+    verdicts = {}
+    for p in paths:
+        sites = [(i, a) for i, (a, _) in enumerate(p.conds)]
+        sites += [(e[1], e[2]) for e in p.effects if e and e[0] == "expr"]
+        if p.value is not None:
+            sites.append((len(p.conds), p.value))
+        for upto, term in sites:
+            for x in S.subterms(term):
+                if x[0] == "attr" and x[2] in PANDAS_ONLY and x[1][0] == "p" and x[1][1] in DATA_PARAMS \
+                        and ("rank2", x[1]) not in p.effects:
+                    ok = _pandas_proved(p.conds[:upto], x[1][1])
+                    key = x[1][1]
+                    if not ok:
+                        verdicts[key] = (False, "%s.%s is evaluated on a path whose conditions [%s] do not entail that %s is a pandas "
+                                                "object (witness: %s given as a numpy array while another argument is a pandas Series "
+                                                "-> AttributeError instead of the metric value)"
+                                         % (key, x[2], "; ".join("%s=%s" % (show(a)[:70], v) for a, v in p.conds[:upto]), key, key))
+                    else:
+                        verdicts.setdefault(key, (True, ""))
+    for key, (good, bad) in sorted(verdicts.items()):
+        ctx.check(good, "R3", "%s:container-guard:%s" % (name, key), "pandas-only attributes of %s are read under an isinstance guard" % key, bad, loc)
 
 
 def expand_delegation(w, name, normal, depth=0):
@@ -1305,7 +1356,7 @@ def run(ctx):
     # floors: instance counts confirmed by hand on commit 132f3d5 (18 functions, 18 classes, 4 kernels)
     ctx.floor("R1", 91)   # 18 defined + 18 class bindings + 18 wrapped-once + 37 package exports
     ctx.floor("R2", 215)  # 18 classes x (returns-func, roles, kw-exists, required, stored, default, forward, attr-written) + protocol
-    ctx.floor("R3", 110)  # 10 direct x (3 multioutput + 2 horizon_weight + kernel calls) + 3 delegates x 3 + 4 scaled x 3 + 4
+    ctx.floor("R3", 118)  # 10 direct x (3 multioutput + 2 horizon_weight + kernel calls) + 3 delegates x 3 + 4 scaled x 3 + 4
     ctx.floor("R4", 10)   # the 10 functions that aggregate themselves (7 of them with separate weighted / unweighted code)
     ctx.floor("R5", 120)
     ctx.floor("R6", 17)
